@@ -343,7 +343,10 @@ where
         failure_persistence: None,
         rng_algorithm: RngAlgorithm::ChaCha,
         rng_seed: RngSeed::Fixed(seed_bytes(ctx.seed, sub.name, shard as u64)),
-        max_shrink_iters: 6000,
+        max_shrink_iters: 3000,
+        // shrinking effort only (never a verdict): bound flat-map regeneration and wall time
+        max_flat_map_regens: 50,
+        max_shrink_time: 45_000,
         max_global_rejects: 1_000_000,
         verbose: 0,
         ..Config::default()
